@@ -176,4 +176,72 @@ theorem lossyT_eq : ∀ (s : List Bool) (q evs : List CollectionChange),
   | false :: s, q, [] => by simpa [lossyT, lossy] using lossyT_eq s q []
   | false :: s, q, e :: evs => by simpa [lossyT, lossy] using lossyT_eq s (enqueue q e) evs
 
+/-! ## The queue is a map: at most one change per id -/
+
+theorem mergeChanges_id (a b n : CollectionChange) (h : mergeChanges a b = some n) : n.id = b.id := by
+  unfold mergeChanges at h
+  cases hk : a.changeType <;> simp only [hk] at h
+  · cases h; rfl
+  · cases hk2 : b.changeType <;> simp only [hk2] at h <;> first | (cases h; rfl) | cases h
+  · cases h; rfl
+  · cases h; rfl
+  · cases h; rfl
+
+theorem enqueue_ids_subset : ∀ (q : List CollectionChange) (c x : CollectionChange),
+    x ∈ enqueue q c → x.id = c.id ∨ ∃ y ∈ q, y.id = x.id
+  | [], c, x, hx => by
+    simp only [enqueue, List.mem_singleton] at hx; subst hx; exact Or.inl rfl
+  | old :: q, c, x, hx => by
+    unfold enqueue at hx
+    split at hx
+    · cases hm : mergeChanges old c with
+      | none => rw [hm] at hx; exact Or.inr ⟨x, List.mem_cons_of_mem _ hx, rfl⟩
+      | some n =>
+        rw [hm] at hx
+        rcases List.mem_append.mp hx with hx | hx
+        · exact Or.inr ⟨x, List.mem_cons_of_mem _ hx, rfl⟩
+        · simp only [List.mem_singleton] at hx; subst hx
+          exact Or.inl (mergeChanges_id old c _ hm)
+    · rcases List.mem_cons.mp hx with rfl | hx
+      · exact Or.inr ⟨x, List.mem_cons_self .., rfl⟩
+      · rcases enqueue_ids_subset q c x hx with h | ⟨y, hy, hyx⟩
+        · exact Or.inl h
+        · exact Or.inr ⟨y, List.mem_cons_of_mem _ hy, hyx⟩
+
+/-- `messages` is a map: at most one queued change per id. -/
+def OnePerId (q : List CollectionChange) : Prop := q.Pairwise (fun a b => a.id ≠ b.id)
+
+theorem enqueue_onePerId : ∀ (q : List CollectionChange) (c : CollectionChange),
+    OnePerId q → OnePerId (enqueue q c)
+  | [], c, _ => by simp [enqueue, OnePerId]
+  | old :: q, c, h => by
+    unfold OnePerId at h ⊢
+    rw [List.pairwise_cons] at h
+    unfold enqueue
+    split
+    · rename_i hid
+      cases hm : mergeChanges old c with
+      | none => exact h.2
+      | some n =>
+        simp only
+        rw [List.pairwise_append]
+        refine ⟨h.2, by simp, ?_⟩
+        intro a ha b hb
+        simp only [List.mem_singleton] at hb; subst hb
+        rw [mergeChanges_id old c _ hm, ← hid]
+        exact fun e => h.1 a ha e.symm
+    · rename_i hid
+      rw [List.pairwise_cons]
+      refine ⟨?_, enqueue_onePerId q c h.2⟩
+      intro x hx
+      rcases enqueue_ids_subset q c x hx with hxc | ⟨y, hy, hyx⟩
+      · rw [hxc]; exact hid
+      · rw [← hyx]; exact h.1 y hy
+
+/-- The queue of the lossy stage holds at most one change per id at every moment: for every schedule,
+what is still queued when the schedule stops is one-per-id (so is every intermediate queue). -/
+theorem lossy_queue_onePerId : ∀ (evs q : List CollectionChange), OnePerId q → OnePerId (evs.foldl enqueue q)
+  | [], _, h => h
+  | e :: evs, q, h => lossy_queue_onePerId evs (enqueue q e) (enqueue_onePerId q e h)
+
 end ScVerif.C06
